@@ -35,6 +35,17 @@ Theorem C32_round_nearest :
   forall q : Q, Qabs (q - inject_Z (round_half_away q)) <= 1 # 2.
 Proof. exact round_half_away_nearest. Qed.
 
+(** FINDING (known finding `misalignment-tolerance-units`): the documented tolerance is "1% of a
+    sample", but the code compares the misalignment (in samples) with 1 / (100 rate) (a time in
+    seconds).  Already over exact rationals a duration 0.1% of a sample off at 8 Hz is rejected; in
+    f64, at 1 GS/s the tolerance is 1e-11 samples, below the rounding error of duration * rate for
+    durations above about 0.1 ms (the harness exhibits 0.000250624 s at 1e9 Hz). *)
+Theorem C32_tolerance_is_not_one_percent :
+  exists d r : Q,
+    0 < r /\ Qabs (d * r - inject_Z (round_half_away (d * r))) < 1 # 100 /\
+    sample_count d r = inl ErrMisaligned.
+Proof. exists (1025 # 1024), (8 # 1). vm_compute. repeat split; reflexivity. Qed.
+
 Close Scope Q_scope.
 
 Section C32.
